@@ -7,7 +7,6 @@ import (
 	"encoding/json"
 	"errors"
 	"fmt"
-	"math"
 	"os"
 	"strings"
 
@@ -574,7 +573,7 @@ func behaviour(rt *goja.Runtime) string {
 				parts = append(parts, "HOSTPANIC")
 			}
 		}()
-		rt.SetMaxCallStackSize(math.MaxInt32)
+		rt.SetMaxCallStackSize(200)
 		o := rt.NewTypeError("x")
 		parts = append(parts, fmt.Sprint(len(strings.Split(o.Get("stack").String(), "\n"))))
 		v, err := rt.RunString(probeScript)
@@ -789,11 +788,19 @@ func runCase(c Case) vh.Record {
 	} else {
 		tl = append(tl, "limit:none")
 	}
-	ob, _ := json.Marshal(map[string]interface{}{"calls": obs, "twin_got": got, "twin_want": want})
-	obsStr := string(ob)
-	if len(obsStr) > 1900 {
-		obsStr = obsStr[:1900]
+	type brief struct {
+		Res    int   `json:"res"`
+		Idle   []int `json:"idle"`
+		Probes int   `json:"probes"`
+		LogLen int   `json:"loglen"`
 	}
+	var bs []brief
+	for _, o := range obs {
+		bs = append(bs, brief{o.Res, o.Idle, len(o.Trace), len(o.Log)})
+	}
+	ob, _ := json.Marshal(map[string]interface{}{"calls": bs, "twin_got": got, "twin_want": want,
+		"idle_keys": "sp sb args prgNil callStack tryStack iterStack refStack stashGlobal jobQueue interrupted"})
+	obsStr := string(ob)
 	return vh.Record{Case: vh.MustJSON(c), Coq: term, Obs: obsStr, Tags: tl, Nontrivial: nontrivial}
 }
 
